@@ -156,12 +156,10 @@ Lemma window_facts c s e : window c = Some (s, e) ->
   cStart c = Z.of_nat s /\ norm_end (cL c) (cEnd c) = Z.of_nat e /\ s < e /\ e <= cL c.
 Proof.
   unfold window, norm_end.
-  destruct (0 <=? cStart c)%Z eqn:E1; [|discriminate].
-  destruct (0 <=? cEnd c)%Z eqn:E2.
-  - destruct ((cStart c <? cEnd c)%Z && (cEnd c <=? Z.of_nat (cL c))%Z) eqn:E3; [|discriminate].
-    intros E. injection E as <- <-. lia.
-  - destruct ((cEnd c =? -1)%Z && (cStart c <? Z.of_nat (cL c))%Z) eqn:E3; [|discriminate].
-    intros E. injection E as <- <-. lia.
+  set (ez := if (0 <=? cEnd c)%Z then cEnd c else (Z.of_nat (cL c) + 1 + cEnd c)%Z).
+  destruct ((0 <=? cStart c)%Z && (cStart c <? ez)%Z && (ez <=? Z.of_nat (cL c))%Z) eqn:E;
+    [|discriminate].
+  intros H. injection H as <- <-. lia.
 Qed.
 
 Lemma in_scope_facts c s e : in_scope h c = true -> window c = Some (s, e) -> facts c s e.
@@ -307,7 +305,8 @@ Definition selp (t : target) (T : nat) (o : OT) : list Q :=
   match t with
   | TNone => concat o
   | TInt z => nth (first_row t T) o []
-  | TSlice lo hi => concat (firstn (Z.to_nat (hi - lo)) (skipn (Z.to_nat lo) o))
+  | TSlice lo hi st =>
+      concat (tab (slice_count lo hi st) (fun i => nth (Z.to_nat lo + i * Z.to_nat st) o []))
   end.
 
 Lemma shape_ok_facts T R o : shape_ok T R o = true ->
@@ -318,30 +317,59 @@ Proof.
   apply Nat.eqb_eq in Hr. exact Hr.
 Qed.
 
+(* the rows a slice names lie inside the tensor *)
+Lemma slice_row_lt lo hi st T i :
+  (0 <= lo)%Z -> (lo < hi)%Z -> (hi <= Z.of_nat T)%Z -> (1 <= st)%Z ->
+  i < slice_count lo hi st -> Z.to_nat lo + i * Z.to_nat st < T.
+Proof.
+  intros H0 H1 H2 H3 Hi. unfold slice_count in Hi.
+  pose proof (Z.mul_div_le (hi - lo + st - 1) st ltac:(lia)) as Hq.
+  set (q := ((hi - lo + st - 1) / st)%Z) in *.
+  assert (Hiq : (Z.of_nat i <= q - 1)%Z) by lia.
+  assert (Hm : (st * Z.of_nat i <= st * (q - 1))%Z) by (apply Z.mul_le_mono_nonneg_l; lia).
+  assert (Hz : (lo + Z.of_nat i * st < Z.of_nat T)%Z) by lia.
+  apply Nat2Z.inj_lt. rewrite Nat2Z.inj_add, Nat2Z.inj_mul, !Z2Nat.id by lia. exact Hz.
+Qed.
+
+Lemma slice_rows_uniform lo hi st T R (o : OT) :
+  length o = T -> (forall r, In r o -> length r = R) ->
+  (0 <= lo)%Z -> (lo < hi)%Z -> (hi <= Z.of_nat T)%Z -> (1 <= st)%Z ->
+  forall l, In l (tab (slice_count lo hi st) (fun i => nth (Z.to_nat lo + i * Z.to_nat st) o [])) ->
+  length l = R.
+Proof.
+  intros HT HR H0 H1 H2 H3 l Hl. apply In_tab in Hl as [i [Hi ->]].
+  apply HR, nth_In. rewrite HT. apply (slice_row_lt lo hi st T i); assumption.
+Qed.
+
+Lemma target_ok_slice lo hi st T : target_ok (TSlice lo hi st) T = true ->
+  (0 <= lo)%Z /\ (lo < hi)%Z /\ (hi <= Z.of_nat T)%Z /\ (1 <= st)%Z.
+Proof. cbn [target_ok]. lia. Qed.
+
 Lemma tsel_ok t T R o : shape_ok T R o = true -> target_ok t T = true ->
   tsel t o = Ok (selp t T o).
 Proof.
   intros Hs Ht. apply shape_ok_facts in Hs as [HT _].
-  destruct t as [|z|lo hi]; cbn [tsel selp first_row target_ok] in *.
+  destruct t as [|z|lo hi st]; cbn [tsel selp first_row] in *.
   - reflexivity.
-  - unfold pyidx. rewrite HT.
+  - cbn [target_ok] in Ht. unfold pyidx. rewrite HT.
     destruct ((0 <=? z)%Z && (z <? Z.of_nat T)%Z) eqn:E1.
     + cbn [bind]. replace (z <? 0)%Z with false by lia. reflexivity.
     + replace ((- Z.of_nat T <=? z)%Z && (z <? 0)%Z) with true by lia.
       cbn [bind]. replace (z <? 0)%Z with true by lia. reflexivity.
-  - rewrite HT, Ht. reflexivity.
+  - cbn [target_ok] in Ht. rewrite HT, Ht. reflexivity.
 Qed.
 
 Lemma selp_length t T R o : shape_ok T R o = true -> target_ok t T = true ->
   length (selp t T o) = nsel t T * R.
 Proof.
   intros Hs Ht. apply shape_ok_facts in Hs as [HT HR].
-  destruct t as [|z|lo hi]; cbn [selp nsel first_row target_ok] in *.
+  destruct t as [|z|lo hi st]; cbn [selp nsel first_row] in *.
   - rewrite (length_concat_uniform R) by exact HR. rewrite HT. reflexivity.
-  - rewrite Nat.mul_1_l. apply HR. apply nth_In. destruct (z <? 0)%Z eqn:E; lia.
-  - rewrite (length_concat_uniform R).
-    + rewrite firstn_length, skipn_length. f_equal. lia.
-    + intros l Hl. apply HR. eapply In_skipn, In_firstn, Hl.
+  - cbn [target_ok] in Ht. rewrite Nat.mul_1_l. apply HR. apply nth_In.
+    destruct (z <? 0)%Z eqn:E; lia.
+  - apply target_ok_slice in Ht as (H0 & H1 & H2 & H3).
+    rewrite (length_concat_uniform R) by (apply (slice_rows_uniform lo hi st T R o); assumption).
+    rewrite tab_length. reflexivity.
 Qed.
 
 Lemma nth_selp t T R o j : shape_ok T R o = true -> target_ok t T = true -> 1 <= R ->
@@ -351,14 +379,17 @@ Proof.
   assert (Hdm : j = j / R * R + j mod R) by (rewrite (Nat.div_mod j R) at 1 by lia; lia).
   assert (Hmod : j mod R < R) by (apply Nat.mod_upper_bound; lia).
   assert (Hdiv : j / R < nsel t T) by (apply Nat.div_lt_upper_bound; lia).
-  destruct t as [|z|lo hi]; cbn [selp nsel first_row] in *.
-  - rewrite Hdm at 1. rewrite nth_concat_uniform; [reflexivity | exact HR | lia | exact Hmod].
+  destruct t as [|z|lo hi st]; cbn [selp nsel first_row stride] in *.
+  - rewrite Hdm at 1. rewrite Nat.mul_1_r.
+    rewrite nth_concat_uniform; [reflexivity | exact HR | lia | exact Hmod].
   - apply Nat.lt_1_r in Hdiv. rewrite Nat.mul_1_l in Hj.
-    rewrite Hdiv, Nat.add_0_r, Nat.mod_small by exact Hj. reflexivity.
-  - cbn [target_ok] in Ht. rewrite Hdm at 1. rewrite nth_concat_uniform.
-    + rewrite nth_firstn by exact Hdiv. rewrite nth_skipn. reflexivity.
-    + intros l Hl. apply HR. eapply In_skipn, In_firstn, Hl.
-    + rewrite firstn_length, skipn_length. lia.
+    rewrite Hdiv, Nat.mul_0_l, Nat.add_0_r, Nat.mod_small by exact Hj. reflexivity.
+  - apply target_ok_slice in Ht as (H0 & H1 & H2 & H3).
+    fold (slice_count lo hi st) in Hdiv.
+    rewrite Hdm at 1. rewrite nth_concat_uniform.
+    + rewrite nth_tab by exact Hdiv. reflexivity.
+    + apply (slice_rows_uniform lo hi st T R o); assumption.
+    + rewrite tab_length. exact Hdiv.
     + exact Hmod.
 Qed.
 
